@@ -22,7 +22,16 @@ Definition sp_quant (l : list N) : bool * list N :=
   | [] => (false, l)
   end.
 
+Definition is_eq_or_bang (c : N) : bool := (c =? g_equals) || (c =? g_bang).
+(* is the assertion that starts here a QuantifiableAssertion of Annex B (a look-ahead, without u)? *)
+Definition quantifiable (u : bool) (l : list N) : bool :=
+  match l with
+  | c0 :: c1 :: c2 :: _ => (c0 =? g_lparen) && (c1 =? g_question) && is_eq_or_bang c2 && negb u
+  | _ => false
+  end.
+
 Section Knot.
+Variable u : bool.
 Variable sdisj : list N -> SR unit.
 
 (* Disjunction `)` *)
@@ -32,6 +41,32 @@ Definition sp_group_body (l : list N) : SR bool :=
   | SOk _ [] => SErr
   | SErr => SErr
   | SFuel => SFuel
+  end.
+Definition sp_assertion (l : list N) : SR bool :=
+  match l with
+  | [] => SOk false l
+  | c :: r =>
+      if c =? g_caret then SOk true r
+      else if c =? g_dollar then SOk true r
+      else if c =? g_lparen then
+        match r with
+        | q :: r1 =>
+            if q =? g_question then
+              match r1 with
+              | x :: r2 =>
+                  if x =? g_less then
+                    match r2 with
+                    | y :: r3 => if is_eq_or_bang y then sp_group_body r3 else SOk false l
+                    | [] => SOk false l
+                    end
+                  else if is_eq_or_bang x then sp_group_body r2
+                  else SOk false l
+              | [] => SOk false l
+              end
+            else SOk false l
+        | [] => SOk false l
+        end
+      else SOk false l
   end.
 Definition sp_atom (l : list N) : SR bool :=
   match l with
@@ -53,9 +88,15 @@ Definition sp_atom (l : list N) : SR bool :=
       else SOk false l
   end.
 Definition sp_term (l : list N) : SR bool :=
-  match sp_atom l with
-  | SOk true r => SOk true (snd (sp_quant r))
-  | SOk false r => SOk false r
+  match sp_assertion l with
+  | SOk true r => if quantifiable u l then SOk true (snd (sp_quant r)) else SOk true r
+  | SOk false _ =>
+      match sp_atom l with
+      | SOk true r => SOk true (snd (sp_quant r))
+      | SOk false r => SOk false r
+      | SErr => SErr
+      | SFuel => SFuel
+      end
   | SErr => SErr
   | SFuel => SFuel
   end.
@@ -99,23 +140,34 @@ Definition sp_disjunction_body (l : list N) : SR unit :=
   end.
 End Knot.
 
-Fixpoint sp_disjunction (f : nat) (l : list N) : SR unit :=
-  match f with O => SFuel | S f => sp_disjunction_body (sp_disjunction f) l end.
+Fixpoint sp_disjunction (u : bool) (f : nat) (l : list N) : SR unit :=
+  match f with O => SFuel | S f => sp_disjunction_body u (sp_disjunction u f) l end.
 
 (* Pattern: a Disjunction that spans the whole input *)
-Definition sp_pattern (l : list N) : SR unit :=
-  match sp_disjunction (S (length l)) l with
+Definition sp_pattern (u : bool) (l : list N) : SR unit :=
+  match sp_disjunction u (S (length l)) l with
   | SOk _ [] => SOk tt []
   | SOk _ (_ :: _) => SErr
   | SErr => SErr
   | SFuel => SFuel
   end.
-Definition recognises (l : list N) : bool := match sp_pattern l with SOk _ _ => true | _ => false end.
+Definition recognises (u : bool) (l : list N) : bool := match sp_pattern u l with SOk _ _ => true | _ => false end.
 
-(* ---- the fragment alphabet ----
-   pattern characters except `<` `=` `!` (which after `(?` would start look-arounds / named groups, outside the
-   fragment) and the seven structural characters  . | ( ) ? * +   *)
+(* ---- the fragment ----
+   alphabet: every pattern character, and the nine structural characters  . | ( ) ? * + ^ $ ;
+   context condition: `(?<` is followed by `=` or `!` (a look-behind, not a named group, which is outside the fragment) *)
 Definition frag_char (c : N) : bool :=
-  (negb (syntax_character c) && negb ((c =? 60) || (c =? 61) || (c =? 33)))
-  || existsb (N.eqb c) [g_dot; g_bar; g_lparen; g_rparen; g_question; g_star; g_plus].
-Definition in_fragment (l : list N) : bool := forallb frag_char l.
+  negb (syntax_character c)
+  || existsb (N.eqb c) [g_dot; g_bar; g_lparen; g_rparen; g_question; g_star; g_plus; g_caret; g_dollar].
+Definition chars_ok (l : list N) : bool := forallb frag_char l.
+Definition local_ok (c : N) (r : list N) : bool :=
+  match r with
+  | c1 :: c2 :: r' =>
+      if (c =? g_lparen) && (c1 =? g_question) && (c2 =? g_less) then
+        match r' with x :: _ => is_eq_or_bang x | [] => false end
+      else true
+  | _ => true
+  end.
+Fixpoint ctx_ok (l : list N) : bool :=
+  match l with [] => true | c :: r => local_ok c r && ctx_ok r end.
+Definition in_fragment (l : list N) : bool := chars_ok l && ctx_ok l.
